@@ -269,7 +269,14 @@ def _check_getgrids_sites(prog, ctx, cs):
     for nm in ("init_adaptive_combi_scheme", "init_full_grid"):
         fi = cs.methods[nm]
         tm = Terms(fi.node, max_depth=0)
-        has = any(isinstance(st, ast.Assert) and tm.term(st.test) == ("cmp", "LtE", ("n", "lmin"), ("n", "lmax")) for st in fi.node.body)
+        # roles: the parameters stored into self.lmin / self.lmax_adaptive
+        pmin = [s_.value.id for s_ in R.self_stores(fi, "lmin") if isinstance(s_.value, ast.Name) and s_.value.id in fi.params]
+        pmax = [s_.value.id for s_ in R.self_stores(fi, "lmax_adaptive") if isinstance(s_.value, ast.Name) and s_.value.id in fi.params]
+        cf_ = cfg_of(fi)
+        has = bool(pmin) and bool(pmax) and any(
+            n_.kind == "stmt" and isinstance(n_.ast, ast.Assert) and tm.term(n_.ast.test) == ("cmp", "LtE", ("n", pmin[0]), ("n", pmax[0]))
+            and all(cf_.dominates(n_, cf_.node_of(s_.stmt)) for s_ in R.self_stores(fi, "lmin") + R.self_stores(fi, "lmax_adaptive"))
+            for n_ in cf_.nodes)
         ctx.check(has, "C01.D7", R.key_of(fi, "asserts-lmax>=lmin"), fi.loc(), "asserts lmax >= lmin", "%s no longer asserts lmax >= lmin" % nm)
 
 
